@@ -372,6 +372,10 @@ func (b *Broker) handleConn(conn net.Conn) {
 	err = connack.Write(conn)
 	if err != nil {
 		logger.SpanErrorf(nil, "send connack to client %s failed: %s", connect.ClientIdentifier, err)
+		// the client has been registered but will never run its read loop,
+		// tear it down here or its entry occupies a connection slot forever.
+		client.closeAndDelSession()
+		b.removeClient(client.info.cid)
 		return
 	}
 
